@@ -548,3 +548,9 @@ LEVEL_NOTE = ('Trusted: Lean kernel; axioms ⊆ {propext, Classical.choice, Quot
               'checked by the oracle on the implementation, not yet proved. Process nodes on the route are '
               'out of scope.')
 TECHNIQUE = 'Lean 4 proof by induction over paths + model/code correspondence (differential)'
+
+
+# trees whose nodes were created from a state (glob members named by set_value / `_add`)
+from harness import globtree as _gt                     # noqa: E402
+from harness.mixins import add_family as _add_family    # noqa: E402
+_add_family(globals(), _gt, 'globtree', _gt.oracle, share=0.01)
